@@ -22,6 +22,8 @@ use std::rc::Rc;
 pub enum Schedule {
     EveryK(u64),
     Random { seed: u64, one_in: u64 },
+    /// no scheduled collections: only the observer (auditor) is installed
+    Never,
 }
 
 impl Schedule {
@@ -29,6 +31,7 @@ impl Schedule {
         match self {
             Schedule::EveryK(k) => format!("every-{}", k),
             Schedule::Random { one_in, .. } => format!("random-1-in-{}", one_in),
+            Schedule::Never => "none".into(),
         }
     }
 }
@@ -62,6 +65,7 @@ pub fn install(m: &mut MwVm, sched: &Schedule, log: Rc<RefCell<AuditLog>>, max_c
         match &s {
             Schedule::EveryK(k) => instr % k == 0,
             Schedule::Random { one_in, .. } => rng.below(*one_in) == 0,
+            Schedule::Never => false,
         }
     };
     m.vm.verif_set_gc_schedule(Some(Box::new(sched_fn)));
@@ -93,6 +97,9 @@ pub fn install(m: &mut MwVm, sched: &Schedule, log: Rc<RefCell<AuditLog>>, max_c
                     }
                     if l.findings.len() < 4 {
                         let f = heapaudit::audit_after(vm, &pre);
+                        for x in &f {
+                            crate::report::emergency(&format!("auditor:{}", x.kind), &x.detail);
+                        }
                         l.findings.extend(f);
                     }
                     if l.check_exactness && l.exactness.is_empty() {
